@@ -1,4 +1,5 @@
 """C15 — SBOMs the library writes can be read back by the library."""
+import re
 from . import lib
 
 META = {
@@ -89,7 +90,7 @@ def run(ctx):
                        'ops.parse "" = none (purl.FromString("") fails) in the CycloneDX theorems',
                        'uuid.New()/time.Now() are an arbitrary Env; they do not reach the observable',
                        'strings are valid UTF-8 (generator alphabet); SPDX .rdf is not an output format of the library and is excluded (f ≠ rdf)']
-    ctx.rule = ('case = (stream, output format ~ formats exported before it, inventory); every inventory is ONE ScanResult value exported to all five formats in a generated order (as binary/cli does with several -o flags): the k-th case re-runs the k-1 earlier exports on the same value, exports, scans the file back, and compares the scan result with a deep copy taken before the first export (mut=). streams: matrix (every purl type x component (name, namespace, version, qualifier values, sub-path) x 15 byte classes that print/parse treat specially: blank % ? # @ / : + & = non-ASCII control %41 %2f and a mix; one inventory per (type, component)), fixed (empty inventory, one package per purl type in lower and '
+    ctx.rule = ('case = (stream, output format ~ formats exported before it, inventory); every inventory is ONE ScanResult value exported to all five formats in a generated order (as binary/cli does with several -o flags): the k-th case re-runs the k-1 earlier exports on the same value, exports, scans the file back, and compares the scan result with a deep copy taken before the first export (mut=). The file is written by the real writers (binary/spdx Write23, binary/cdx Write; a quarter of the cases through cli.Flags.WriteScanResults with one -o item per export) to an output path in a generated state — fresh, an existing shorter file, existing LONGER arbitrary bytes, a previous LARGER export in the same format, a longer file that was read-only — and read back from that path. streams: matrix (every purl type x component (name, namespace, version, qualifier values, sub-path) x 15 byte classes that print/parse treat specially: blank % ? # @ / : + & = non-ASCII control %41 %2f and a mix; one inventory per (type, component)), fixed (empty inventory, one package per purl type in lower and '
                 'upper case, the 13-package probe, inventories whose names collide with the exporters\' structural vocabulary: main, main-*, Package-main, SPDXRef-DOCUMENT, NOASSERTION, NONE, SCALIBR, a_b/a-b/a+b …), valid, esc (JSON/YAML/XML/tag-value/URL-sensitive atoms), raw (newlines, tabs, <text>), ctl (control and non-characters), '
                 'malformed (purls packageurl-go rejects). inventory size 0..30, 15% purl-less, 10% with CPE metadata, 1/6 duplicates. non-trivial = at least one package with a purl; '
                 'distinct = distinct case lines. compared: sorted purl multiset (model vs implementation, and implementation vs Spec), count of purl-less returned packages')
@@ -99,6 +100,7 @@ def run(ctx):
         proofs_ok = ctx.leanchecker('Scalibr.Properties.C15') and proofs_ok
     n = {'quick': 1000, 'thorough': 20000}[ctx.tier]
     types = {}
+    pathstates = {}  # state of the output path before the judged export (and whether cli.Flags.WriteScanResults wrote it) -> cases
     positions = {}   # how many exports of the same ScanResult value preceded the judged one -> cases
     judged = {'all': {}, 'positively': {}}   # per format: cases, and cases in which every oracle clause up to the purl comparison held
 
@@ -108,7 +110,7 @@ def run(ctx):
     def oracle(case, fi, fm):
         # the Spec (computed by the Lean driver from the case) judged against the IMPLEMENTATION's answer
         t = case.split(' ')
-        stream, fmt = t[1], t[2].split('~')[0]
+        stream, fmt = t[1], re.split('[~@]', t[2])[0]
         if 'spec' not in fm:
             return None                      # driver could not parse the case: reported as a correspondence failure
         for f in packages(case):
@@ -138,7 +140,7 @@ def run(ctx):
 
     def finding_class(case, fi, fm):
         t = case.split(' ')
-        fmt, st = t[2].split('~')[0], fi.get('st', fi.get('_'))
+        fmt, st = re.split('[~@]', t[2])[0], fi.get('st', fi.get('_'))
         judged['all'][fmt] = judged['all'].get(fmt, 0)   # (counted in classify)
         if fmt in ('spdx23-json', 'spdx23-yaml') and st == 'ok' and fi.get('purls') == fm.get('spec') and fm.get('specall') not in (None, fm.get('spec')) \
                 and fm.get('laws') != '0' and (t[1] == 'malformed' or fm.get('wf') == '1'):
@@ -151,10 +153,12 @@ def run(ctx):
 
     def classify(case, fi, fm):
         t = case.split(' ')
-        f0 = t[2].split('~')[0]
+        f0 = re.split('[~@]', t[2])[0]
         judged['all'][f0] = judged['all'].get(f0, 0) + 1
         pos = 0 if '~' not in t[2] else t[2].count('+') + 1
         positions[pos] = positions.get(pos, 0) + 1
+        pst = t[2].split('~')[0].partition('@')[2] or 'fresh'
+        pathstates[pst] = pathstates.get(pst, 0) + 1
         return '%s %s st=%s' % (t[1], f0, fi.get('st', fi.get('_')))
 
     lib.standard_stream(ctx, gen='c15gen', driver='drv_c15', gen_args=['-seed', str(ctx.seed), '-n', str(n), '-tier', ctx.tier],
@@ -162,6 +166,7 @@ def run(ctx):
                         strict_known=False)  # the model does not mirror the two recorded codec defects (it answers as the Spec does), so the class is excused on the implementation's status
     ctx.extra['purl_types_seen'] = dict(sorted(types.items()))
     ctx.extra['exports_before_the_judged_one'] = dict(sorted(positions.items()))
+    ctx.extra['output_path_state_before_the_export'] = dict(sorted(pathstates.items()))
     ctx.extra['judged_positively_by_format'] = {f: '%d of %d' % (judged['positively'].get(f, 0), k) for f, k in sorted(judged['all'].items())}
     ctx.extra['tag_value_share'] = ('spdx23-tag-value: %d of %d cases judged positively — the format never reads back on the unchanged code (known finding C15/spdx-tag-value-supplier), '
                                     'so for this format the theorems\' codec hypothesis is false for every inventory and the stream only re-confirms the finding' % (
